@@ -75,6 +75,12 @@ type World struct {
 	queued    []queuedTx
 	busy      map[string]bool
 	pendingDS []abci.Misbehavior
+	cqueued   map[string][]queuedTx       // per consumer chain
+	cbusy     map[string]map[string]bool // per consumer chain
+
+	// Now is the global clock: every block of any chain advances it and takes it as its block time, so the
+	// chains' clocks are monotone and never ahead of each other's next block (light-client clock drift).
+	Now time.Time
 
 	Labels map[string]int
 
@@ -87,9 +93,11 @@ type World struct {
 }
 
 func New(cfg Config) *World {
-	w := &World{Cfg: cfg, Keys: sim.NewKeyStore(), Vals: map[string]*ValInfo{}, busy: map[string]bool{}, Labels: map[string]int{}}
+	w := &World{Cfg: cfg, Keys: sim.NewKeyStore(), Vals: map[string]*ValInfo{}, busy: map[string]bool{}, Labels: map[string]int{},
+		cqueued: map[string][]queuedTx{}, cbusy: map[string]map[string]bool{}, Now: sim.GenesisTime}
 	pc := cfg.Provider
 	pc.Users = append(pc.Users, GovProposer)
+	pc.Users = append(pc.Users, relayerNames()...)
 	for i := 0; i < cfg.SpareAccs; i++ {
 		pc.Users = append(pc.Users, fmt.Sprintf("n%d", i))
 	}
@@ -336,6 +344,8 @@ func (w *World) Apply(a Action) *StepResult {
 	switch {
 	case a.Kind == KBlock && (a.Chain == "" || a.Chain == "provider"):
 		return w.providerBlock(ap)
+	case a.Kind == KBlock:
+		return w.consumerBlock(ap)
 	case a.Kind == KProviderDS:
 		return w.queueProviderDoubleSign(ap)
 	case a.Sender == "gov":
@@ -355,7 +365,7 @@ func (w *World) Apply(a Action) *StepResult {
 	if w.busy[signer] {
 		return &StepResult{Skipped: "signer busy"}
 	}
-	w.P.QueueTx(fmt.Sprintf("%d:%s", idx, a.Kind), signer, msgs...)
+	w.P.Chain.QueueTx(fmt.Sprintf("%d:%s", idx, a.Kind), signer, msgs...)
 	w.busy[signer] = true
 	w.queued = append(w.queued, queuedTx{idx: idx, acc: signer})
 	return &StepResult{}
@@ -377,6 +387,8 @@ func (w *World) providerBlock(a *Action) *StepResult {
 	}
 	mis := w.pendingDS
 	w.pendingDS = nil
+	w.Now = w.Now.Add(dt)
+	dt = w.Now.Sub(w.P.Time)
 	br := w.P.ProduceBlock(dt, sim.Votes{Absent: absent}, mis)
 	res := &StepResult{Block: br, Chain: "provider"}
 	q := w.queued
@@ -404,6 +416,10 @@ func (w *World) providerBlock(a *Action) *StepResult {
 		w.observeTx(to)
 	}
 	w.closeProposals(res)
+	if w.F() != nil {
+		w.observePackets(nil, "", br)
+		w.instantiateLaunched()
+	}
 	// votes for open proposals are queued first thing for the next block (the voting operators are busy for
 	// that block, so generators pick other signers)
 	w.queueVotes()
